@@ -297,3 +297,178 @@ Definition cli_evaluate_model (Scr Th Pr PrT Ob Nm Ev : Type) (L : ev_lib Scr Th
   dor me <- ev_mk_eval L (ev_transpose L pred) (ev_observations L screen) (chain_ids_of (ev_n_thetas L) hs)
               (ev_sample_names L screen);
   Ok [(ev_output a, me)].
+
+(* ====================================================================================================================
+   The argument-handling glue: how command-line strings become the class and the parameter dict that the main()
+   models above take as the `*_mk_*` components.  Sources: cli/argument_parsing.py (KVAppendAction.__call__,
+   str_to_bool, cast_dict_to_type), introspection.py, and the statements of each get_args() after parser.parse_args().
+
+   A Python str is the list of its code points.  A dict with str / type-object keys is an insertion-ordered association
+   list (`kdict`, Lib/PyRt.v).  What argparse itself does (tokenising, calling the action once per occurrence of the
+   option, the plain conversions type=int / type=str) is NOT modelled: parser.parse_args() yields the raw namespace.
+
+   Library primitives (the record `pyprims`; theorems hold for EVERY such record): str.lower(), int(str), float(str),
+   and the call of any other annotation object on a string.  F = the type of float values, O = of the values such other
+   calls produce.
+
+   Error tags: 20 AssertionError (nargs), 21 argparse.ArgumentError ("could not parse argument ... as k=v format"),
+   22 ValueError of str_to_bool, 23 ValueError "empty separator", 24 ValueError of unpacking a list into two names,
+   25 KeyError (a KEY that is not a required __init__ argument), 26 TypeError ('NoneType' object is not callable: a
+   required argument without annotation), 29 TypeError "The given object is not a class.", 30 NameError of
+   create_instance, 31 ValueError "is not a subclass of"; 98 IndexError, 99 TypeError on None (Lib/PyRt.v). *)
+Definition str : Type := list Z.
+Fixpoint str_eqb (a b : str) : bool :=
+  match a, b with
+  | [], [] => true
+  | x :: a', y :: b' => (x =? y) && str_eqb a' b'
+  | _, _ => false
+  end.
+
+(* ---------- str.split(sep, maxsplit) ---------- *)
+Fixpoint str_prefix (p s : str) : bool :=
+  match p, s with
+  | [], _ => true
+  | x :: p', y :: s' => (x =? y) && str_prefix p' s'
+  | _ :: _, [] => false
+  end.
+(* left-to-right scan: cur = the part collected so far (reversed), n = cuts still allowed (negative: no limit),
+   skip = characters of a separator occurrence still to pass over *)
+Fixpoint split_go (sep : str) (skip : nat) (n : Z) (cur : str) (s : str) : list str :=
+  match s with
+  | [] => [rev cur]
+  | x :: r =>
+      match skip with
+      | S k => split_go sep k n cur r
+      | O => if negb (n =? 0) && str_prefix sep s
+             then rev cur :: split_go sep (pred (length sep)) (n - 1) [] r
+             else split_go sep O n (x :: cur) r
+      end
+  end.
+(* s.split(sep, maxsplit): at most maxsplit cuts at the leftmost non-overlapping occurrences of sep; ValueError for "" *)
+Definition str_split (s sep : str) (maxsplit : Z) : result (list str) :=
+  match sep with [] => Err 23 | _ => Ok (split_go sep O maxsplit [] s) end.
+
+(* ---------- annotations, converters, parameter values ---------- *)
+(* the annotation object of an __init__ parameter, as far as cast_dict_to_type can tell them apart: the four builtin types
+   of its table, None (no annotation), any other object (numbered) *)
+Inductive ann : Type := ABool | AInt | AFloat | AStr | ANone | AOther (id : Z).
+Definition ann_eqb (a b : ann) : bool :=
+  match a, b with
+  | ABool, ABool | AInt, AInt | AFloat, AFloat | AStr, AStr | ANone, ANone => true
+  | AOther i, AOther j => i =? j
+  | _, _ => false
+  end.
+(* what the table `converters` holds and `.get(t, t)` returns: the function str_to_bool, or a type object (called) *)
+Inductive callable : Type := CStrToBool | CType (t : ann).
+(* a converted parameter value *)
+Inductive pval (F O : Type) : Type := VBool (b : bool) | VInt (z : Z) | VFloat (f : F) | VStr (s : str) | VOther (o : O).
+Arguments VBool {F O} b.
+Arguments VInt {F O} z.
+Arguments VFloat {F O} f.
+Arguments VStr {F O} s.
+Arguments VOther {F O} o.
+
+Record pyprims (F O : Type) := mk_pyprims {
+  p_lower : str -> str;                         (* s.lower() *)
+  p_int : str -> result Z;                      (* int(s) *)
+  p_float : str -> result F;                    (* float(s) *)
+  p_call_other : Z -> str -> result O }.        (* annotation object number n called on s *)
+
+(* f(s) for a value f of the converter table / an annotation; `stb` = the function str_to_bool.  bool(s) (never reached
+   through the table, which maps bool to str_to_bool) is "s is not empty". *)
+Definition call_callable (F O : Type) (P : pyprims F O) (stb : str -> result bool) (c : callable) (s : str)
+  : result (pval F O) :=
+  match c with
+  | CStrToBool => dor b <- stb s; Ok (VBool b)
+  | CType ABool => Ok (VBool (negb (is_nil s)))
+  | CType AInt => dor z <- p_int P s; Ok (VInt z)
+  | CType AFloat => dor f <- p_float P s; Ok (VFloat f)
+  | CType AStr => Ok (VStr s)
+  | CType ANone => Err 26
+  | CType (AOther n) => dor o <- p_call_other P n s; Ok (VOther o)
+  end.
+
+(* ---------- argument_parsing.str_to_bool ---------- *)
+Definition s_true : str := [116; 114; 117; 101].      Definition s_t : str := [116].
+Definition s_yes : str := [121; 101; 115].            Definition s_y : str := [121].
+Definition s_1 : str := [49].
+Definition s_false : str := [102; 97; 108; 115; 101]. Definition s_f : str := [102].
+Definition s_no : str := [110; 111].                  Definition s_n : str := [110].
+Definition s_0 : str := [48].
+Definition true_words : list str := [s_true; s_t; s_yes; s_y; s_1].
+Definition false_words : list str := [s_false; s_f; s_no; s_n; s_0].
+Definition str_in (s : str) (l : list str) : bool := existsb (str_eqb s) l.
+
+Definition str_to_bool (F O : Type) (P : pyprims F O) (s : str) : result bool :=
+  if str_in (p_lower P s) true_words then Ok true
+  else if str_in (p_lower P s) false_words then Ok false
+  else Err 22.
+
+(* ---------- argument_parsing.cast_dict_to_type ---------- *)
+Definition converters : list (ann * callable) :=
+  [(ABool, CStrToBool); (AInt, CType AInt); (AFloat, CType AFloat); (AStr, CType AStr)].
+(* the conversion of one value whose key has annotation t *)
+Definition convert (F O : Type) (P : pyprims F O) (t : ann) (v : str) : result (pval F O) :=
+  call_callable P (str_to_bool P) (kdict_get_default ann_eqb converters t (CType t)) v.
+(* items in the order of k_v_string; per item: the annotation lookup (KeyError 25), then the conversion; the first
+   exception aborts; a repeated key cannot occur in a dict *)
+Fixpoint cast_items (F O : Type) (P : pyprims F O) (types : list (str * ann)) (items : list (str * str))
+  (acc : list (str * pval F O)) : result (list (str * pval F O)) :=
+  match items with
+  | [] => Ok acc
+  | (k, v) :: r =>
+      dor t <- kdict_get str_eqb 25 types k;
+      dor x <- convert P t v;
+      cast_items P types r (kdict_set str_eqb acc k x)
+  end.
+Definition cast_dict (F O : Type) (P : pyprims F O) (k_v_string : list (str * str)) (k_v_types : list (str * ann))
+  : result (list (str * pval F O)) := cast_items P k_v_types k_v_string [].
+
+(* ---------- argument_parsing.KVAppendAction.__call__ ---------- *)
+(* the namespace seen at the action's destination attribute: None (argparse's default) or the dict accumulated so far;
+   `values` = the nargs=1 list of the option's words.  Note maxsplit = 2: a word with two or more '=' splits into three
+   parts and is REFUSED (the class docstring says "on the first ="). *)
+Definition s_eq : str := [61].
+Definition kv_append (dest : option (list (str * str))) (values : list str) : result (option (list (str * str))) :=
+  match values with
+  | [w] =>
+      match str_split w s_eq 2 with
+      | Ok [k; v] => Ok (Some (kdict_set str_eqb (opt_or_empty dest) k v))
+      | Ok _ => Err 21
+      | Err t => if zmem t [23; 24] then Err 21 else Err t
+      end
+  | _ => Err 20
+  end.
+(* argparse calls the action once per occurrence of the option, in command-line order, on the same namespace *)
+Fixpoint kv_parse (dest : option (list (str * str))) (words : list str) : result (option (list (str * str))) :=
+  match words with
+  | [] => Ok dest
+  | w :: r => dor d <- kv_append dest [w]; kv_parse d r
+  end.
+
+(* ---------- introspection.py, as the get_args() functions use it ---------- *)
+Inductive base_class : Type :=
+  BScorer | BPlatePolicy | BBayesianModel | BPlateGenerator | BInitialPlateGenerator | BPlateSmoother | BDistanceMetric.
+Record introspect (Cls : Type) := mk_introspect {
+  (* get_class(package_name, class_name, base_class): None = no module of the package has an attribute of that name *)
+  i_get_class : str -> str -> base_class -> result (option Cls);
+  (* get_required_init_args_with_annotations(x), x a class or None: name -> annotation of the __init__ parameters
+     without default, in signature order *)
+  i_required : option Cls -> result (list (str * ann)) }.
+Definition s_batchie : str := [98; 97; 116; 99; 104; 105; 101].
+
+(* the KEY=VALUE parameters of one class-valued option: {} when the option's dict is None or empty, else cast with the
+   required-argument annotations of the class found *)
+Definition cast_params (F O : Type) (P : pyprims F O) (param : option (list (str * str))) (required : list (str * ann))
+  : result (list (str * pval F O)) :=
+  match param with
+  | Some (x :: l) => cast_dict P (x :: l) required
+  | _ => Ok []
+  end.
+(* class lookup by name, required-argument annotations of what was found (TypeError when nothing was), cast *)
+Definition resolve (Cls F O : Type) (I : introspect Cls) (P : pyprims F O) (base : base_class) (name : str)
+  (param : option (list (str * str))) : result (option Cls * list (str * pval F O)) :=
+  dor c <- i_get_class I s_batchie name base;
+  dor req <- i_required I c;
+  dor ps <- cast_params P param req;
+  Ok (c, ps).
